@@ -137,3 +137,18 @@ pub enum UEnumD {
     Idle,
     Data(FlatVec<u8, u16>),
 }
+
+/// a NON-portable generic wrapper and a `portable = true` definition that embeds it: `Packet<T>` must not be `Portable`
+/// for any `T` (its field type `Native<T>` is not), although every generic parameter is
+#[flat]
+#[derive(Default, Clone, Copy, Debug, PartialEq, Eq)]
+pub struct Native<T: flatty::Flat + Default + Copy> {
+    pub x: u32,
+    pub y: T,
+}
+#[flat(portable = true)]
+#[derive(Default, Clone, Copy, Debug, PartialEq, Eq)]
+pub struct Packet<T: flatty::Flat + Default + Copy> {
+    pub tag: u8,
+    pub body: Native<T>,
+}
